@@ -172,7 +172,41 @@ def _ops(kind):
 
 
 def strategy(kind, max_ops):
-    return st.builds(lambda ops: {"kind": kind, "ops": ops}, st.lists(_ops(kind), min_size=1, max_size=max_ops))
+    """Histories with back-references: besides independent operations, an operation may repeat an earlier read
+    verbatim, or write exactly at / just before / at the end of an earlier read's span, optionally through an aliased
+    spelling of the address (+- k * 2^32 for the wrapping RISC-V memory) - the shapes on which a stale cached read or a
+    mis-invalidated span would show."""
+    widths = [1, 2, 4, 8] if kind == "riscv" else [1, 2, 4]
+    cb = 8 if kind == "riscv" else 16
+    base_op = _ops(kind)
+
+    @st.composite
+    def hist(draw):
+        n = draw(st.integers(1, max_ops))
+        ops = []
+        reads = []
+        for _ in range(n):
+            if reads and draw(st.integers(0, 9)) < 4:
+                rn, ra = draw(st.sampled_from(reads[-6:]))
+                what = draw(st.sampled_from(["again", "again", "w@start", "w@end", "w-before", "w-alias", "w-inside"]))
+                if what == "again":
+                    op = ["r", rn, ra]
+                else:
+                    wn = draw(st.sampled_from(widths))
+                    a = {"w@start": ra, "w@end": ra + rn - 1, "w-before": ra - wn + 1, "w-inside": ra + draw(st.integers(0, rn - 1)),
+                         "w-alias": ra + draw(st.integers(0, rn - 1))}[what]
+                    if what == "w-alias" and kind == "riscv":
+                        a += draw(st.sampled_from([T, -T, 2 * T]))
+                    v = draw(st.one_of(st.sampled_from([0, 1, 0xFF, 0xA5, 0xFFFF, 0x5AA5C33C, 2 ** 64 - 1]), st.integers(0, 2 ** 64 - 1)))
+                    op = ["w", wn, a, v & ((1 << (wn * cb)) - 1)]
+            else:
+                op = draw(base_op)
+            if op[0] == "r":
+                reads.append((op[1], op[2]))
+            ops.append(op)
+        return {"kind": kind, "ops": ops}
+
+    return hist()
 
 
 def corpus():
@@ -181,6 +215,8 @@ def corpus():
                                   ["r", 4, B], ["r", 8, B - 4], ["w", 4, B - 2, 5], ["r", 4, B]]},
         {"kind": "riscv", "ops": [["w", 4, T - 2, 0x11223344], ["r", 1, T - 1], ["r", 1, T - 2], ["w", 1, T - 1, 0x77],
                                   ["r", 2, 2 * T - 2], ["w", 1, -1, 0x55], ["r", 1, T - 1], ["r", 1, 0]]},
+        {"kind": "riscv", "ops": [["w", 4, B + 8, 0x11223344], ["r", 4, B + 8], ["w", 1, B + 9 + T, 0xEE], ["r", 4, B + 8], ["r", 2, B + 8], ["w", 1, B + 8, 7],
+                                  ["r", 2, B + 8], ["r", 8, B + 8], ["w", 4, B + 5, 0xA1B2C3D4], ["r", 8, B + 8], ["r", 4, -2 + T + B], ["w", 2, B - 3 + T, 0xFFFF], ["r", 4, B - 2 + T]]},
         {"kind": "toy", "ops": [["w", 1, 4095, 0xBEEF], ["r", 1, 4095], ["w", 2, 4095, 0x12345678], ["r", 1, 4095],
                                 ["r", 1, 4096], ["w", 1, -1, 1], ["w", 2, 10, 0xAAAABBBB], ["r", 1, 11], ["r", 4, 8]]},
     ]
@@ -188,10 +224,10 @@ def corpus():
 
 def shards(tier, seed):
     if tier == "quick":
-        return [{"kind": k, "n": 250, "ops": 40, "seed": seed * 1000 + i} for i, k in enumerate(["riscv", "toy"])]
+        return [{"kind": k, "n": 700, "ops": 40, "seed": seed * 1000 + i} for i, k in enumerate(["riscv", "toy", "riscv", "toy"])]
     items = []
     for i in range(16):
-        items.append({"kind": "riscv" if i % 4 else "toy", "n": 2000, "ops": 60, "seed": seed * 1000 + i})
+        items.append({"kind": "riscv" if i % 4 else "toy", "n": 4000, "ops": 60, "seed": seed * 1000 + i})
     return items
 
 
